@@ -28,6 +28,8 @@ FILES = {
               "2.0 1.5 -0.5 1\n\nEdges\n0\n\nTriangles\n4\n2 4 3 1\n1 3 4 1\n4 2 1 1\n1 2 3 1\n\nTetrahedra\n1\n1 2 3 4 1\n\n",
     "l.mesh": "MeshVersionFormatted 1\nDimension 3\nVertices\n4\n1.0 0.5 -1.0 1\n2.0 0.5 -1.0 1\n1.0 1.5 -1.0 1\n"
               "2.0 1.5 -0.5 1\n\nEdges\n2\n1 2 1\n2 3 1\n\n",
+    "e.mesh": "MeshVersionFormatted 1\nDimension 3\nVertices\n5\n1.0 0.5 -1.0 1\n2.0 0.5 -1.0 1\n1.0 1.5 -1.0 1\n"
+              "2.0 1.5 -0.5 1\n1.5 1.0 1.0 1\n\nEdges\n3\n3 4 1\n4 5 1\n1 2 1\n\nTriangles\n2\n1 2 3 1\n2 4 3 1\n\n",
     "p.xyz": "1.0 0.5 -1.0\n2.0 0.5 -1.0\n1.0 1.5 -1.0\n2.0 1.5 -0.5\n",
     "v.tet": "4 vertices\n1 tets\n1.0 0.5 -1.0\n2.0 0.5 -1.0\n1.0 1.5 -1.0\n2.0 1.5 -0.5\n4 0 1 2 3\n",
     "s.ply": "ply\nformat ascii 1.0\nelement vertex 4\nproperty float x\nproperty float y\nproperty float z\n"
@@ -135,6 +137,36 @@ def _volume():
 
 def raw_volume(ctx):
     return _one(_volume(), "RawMeshData(Vec)")
+
+
+def raw_whisker(ctx):
+    """two triangles plus a declared free-standing edge (3,4) that no face carries"""
+    import mouette as M
+    raw = M.mesh.RawMeshData()
+    raw.vertices += _vecs(PTS)
+    raw.faces += [tuple(t) for t in TRIS]
+    raw.edges += [(3, 4)]
+    return _one(M.mesh.SurfaceMesh(raw), "RawMeshData(Vec)")
+
+
+def raw_volume_extras(ctx):
+    """one tetrahedron plus a declared face that no cell carries and a declared edge that no face carries"""
+    import mouette as M
+    raw = M.mesh.RawMeshData()
+    raw.vertices += _vecs(PTS + [[3.0, 1.0, 1.0]])
+    raw.cells += [tuple(TETS[0])]
+    raw.faces += [(1, 2, 4)]
+    raw.edges += [(4, 5)]
+    return _one(M.mesh.VolumeMesh(raw), "RawMeshData(Vec)")
+
+
+def p_reorder(ctx):
+    """reorder_vertices derives a mesh from another one (the source stays live)"""
+    import mouette as M
+    from mouette.mesh.mesh import reorder_vertices
+    src = M.mesh.load(os.path.join(ctx.dir, "s.obj"))
+    out = reorder_vertices(src, [3, 2, 1, 0])
+    return Built([(src, "load:obj:s"), (out, "reorder_vertices")], [(0, 1, "reorder_vertices")])
 
 
 # ---- procedural -------------------------------------------------------------------------------------
@@ -416,11 +448,13 @@ def p_boundary_volume(ctx):
 PRODUCERS = {
     "load.obj": _loader("s.obj"), "load.obj.polyline": _loader("l.obj"), "load.off": _loader("s.off"),
     "load.mesh.surface": _loader("s.mesh"), "load.mesh.volume": _loader("v.mesh"), "load.mesh.polyline": _loader("l.mesh"),
+    "load.mesh.edges": _loader("e.mesh"),
     "load.xyz": _loader("p.xyz"), "load.tet": _loader("v.tet"), "load.ply": _loader("s.ply"),
     "load.stl_ascii": _loader("s.stl"), "load.geogram_ascii": _loader("s.geogram_ascii"),
     "from_arrays.pointcloud": fa_pointcloud, "from_arrays.polyline": fa_polyline, "from_arrays.surface": fa_surface,
     "from_arrays.volume": fa_volume, "from_arrays.2col": fa_2col, "from_arrays.int": fa_int,
-    "raw.lists": raw_lists, "raw.volume": raw_volume,
+    "raw.lists": raw_lists, "raw.volume": raw_volume, "raw.whisker": raw_whisker, "raw.volume.extras": raw_volume_extras,
+    "reorder_vertices": p_reorder,
     "triangle": p_triangle, "quad": p_quad, "quad.tri": p_quad_tri, "unit_grid": p_grid, "unit_grid.tri_uv": p_grid_tri_uv,
     "unit_triangle": p_unit_triangle, "ring.closed": p_ring_closed, "ring.open": p_ring_open,
     "ring.open.cover2": p_ring_open_cover2, "flat_ring": p_flat_ring,
